@@ -59,7 +59,64 @@ pub fn build_routes(reg: &[String], log: &Rec, via_builder: bool) -> tonic::serv
     if via_builder { b.routes() } else { r }
 }
 
+/// via "server": the services are registered on tonic::transport::Server through add_service / add_optional_service (stim.plan:
+/// [{name, how: "add"|"some"|"none"}]), served over an in-memory pipe, and the request is sent by a bare h2 client.
+fn run_via_server(stim: &Value, rec: &Rec) {
+    let path = json_bytes(&stim["path"]);
+    let uri = match http::Uri::try_from(&path[..]) { Ok(u) if u.path_and_query().is_some() && u.scheme().is_none() => u, _ => { rec.ev(json!({"e":"sent","uri_ok":false})); return; } };
+    rec.ev(json!({"e":"sent","uri_ok":true,"path_seen":str_json(uri.path())}));
+    let plan = stim["plan"].as_array().cloned().unwrap_or_default();
+    let log = rec.clone();
+    block_on(async move {
+        let mut srv = tonic::transport::Server::builder();
+        let mut router: Option<tonic::transport::server::Router> = None;
+        macro_rules! reg { ($how:expr, $svc:expr, $ty:ty) => {{
+            router = Some(match (router.take(), $how) {
+                (None, "none") => srv.add_optional_service(None::<$ty>),
+                (None, "some") => srv.add_optional_service(Some($svc)),
+                (None, _) => srv.add_service($svc),
+                (Some(r), "none") => r.add_optional_service(None::<$ty>),
+                (Some(r), "some") => r.add_optional_service(Some($svc)),
+                (Some(r), _) => r.add_service($svc),
+            });
+        }}; }
+        for st in plan.iter() {
+            let how = st["how"].as_str().unwrap_or("add");
+            match st["name"].as_str().unwrap_or("") {
+                "a.S" => reg!(how, g::a_s::s_server::SServer::new(H { svc: "a.S", log: log.clone() }), g::a_s::s_server::SServer<H>),
+                "a.S2" => reg!(how, g::a_s2::s2_server::S2Server::new(H { svc: "a.S2", log: log.clone() }), g::a_s2::s2_server::S2Server<H>),
+                "S" => reg!(how, g::bare_s::s_server::SServer::new(H { svc: "S", log: log.clone() }), g::bare_s::s_server::SServer<H>),
+                "a.b.S" => reg!(how, g::a_b_s::s_server::SServer::new(H { svc: "a.b.S", log: log.clone() }), g::a_b_s::s_server::SServer<H>),
+                "a.s" => reg!(how, g::a_lower::s_server::sServer::new(H { svc: "a.s", log: log.clone() }), g::a_lower::s_server::sServer<H>),
+                other => panic!("unknown service {other}"),
+            }
+        }
+        let Some(router) = router else { return; };
+        let (c_io, s_io, _d) = crate::shim::Shim::pair(65536, 65536, 65536, 0);
+        let incoming = tokio_stream::StreamExt::chain(tokio_stream::once(Ok::<_, std::io::Error>(s_io)), tokio_stream::pending());
+        let server = tokio::spawn(async move { let _ = router.serve_with_incoming(incoming).await; });
+        let (mut client, conn) = match h2::client::handshake(c_io).await { Ok(x) => x, Err(e) => { log.ev(json!({"e":"h2_err","msg":e.to_string()})); return; } };
+        let connt = tokio::spawn(async move { let _ = conn.await; });
+        let full = http::Uri::builder().scheme("http").authority("lab.test").path_and_query(uri.path_and_query().unwrap().clone()).build().unwrap();
+        let req = http::Request::builder().method("POST").uri(full).header("content-type", "application/grpc").header("te", "trailers").body(()).unwrap();
+        let r: Result<(), String> = async {
+            let (resp, mut send) = client.send_request(req, false).map_err(|e| e.to_string())?;
+            send.send_data(Bytes::from_static(&[0, 0, 0, 0, 1, 7]), true).map_err(|e| e.to_string())?;
+            let resp = resp.await.map_err(|e| e.to_string())?;
+            let (p, mut body) = resp.into_parts();
+            let mut data = vec![];
+            while let Some(ch) = body.data().await { let ch = ch.map_err(|e| e.to_string())?; let _ = body.flow_control().release_capacity(ch.len()); data.extend_from_slice(&ch); }
+            let trailers = match body.trailers().await.map_err(|e| e.to_string())? { Some(t) => headers_json(&t), None => json!([]) };
+            log.ev(json!({"e":"resp","status":p.status.as_u16(),"list":headers_json(&p.headers),"body":bytes_json(&data),"trailers":trailers}));
+            Ok(())
+        }.await;
+        if let Err(m) = r { log.ev(json!({"e":"h2_err","msg":m})); }
+        server.abort(); connt.abort();
+    });
+}
+
 pub fn run(stim: &Value, rec: &Rec) {
+    if stim["via"].as_str() == Some("server") { return run_via_server(stim, rec); }
     let reg: Vec<String> = stim["reg"].as_array().cloned().unwrap_or_default().iter().map(|v| v.as_str().unwrap_or("").to_string()).collect();
     let routes = build_routes(&reg, rec, stim["via"].as_str() == Some("builder"));
     let path = json_bytes(&stim["path"]);
